@@ -60,7 +60,9 @@ func NewParser() *participle.Parser[Doc] {
 		participle.Elide("Space"),
 		participle.UseLookahead(2),
 		participle.Upper("Ident"),
+		participle.Map(func(t lexer.Token) (lexer.Token, error) { t.Value += "_"; return t, nil }, "Ident"),
 		participle.Map(func(t lexer.Token) (lexer.Token, error) { t.Value = "#" + t.Value; return t, nil }, "Int"),
+		participle.Map(func(t lexer.Token) (lexer.Token, error) { t.Value += "%"; return t, nil }, "Int"),
 		participle.Map(func(t lexer.Token) (lexer.Token, error) { t.Value = strings.TrimSpace(t.Value); return t, nil }, "HereText"),
 	)
 }
@@ -184,6 +186,22 @@ func QuoteRules() lexer.Rules {
 		"InSQ": {
 			{Name: "SQEnd", Pattern: `'`, Action: lexer.Pop()},
 			{Name: "SChar", Pattern: `[^']+`},
+		},
+	}
+}
+
+// ZeroRefRules: a \0 back-reference (the whole match of the entering rule): raw strings delimited
+// by a run of N quotes. Two entries differ only in group 0.
+func ZeroRefRules() lexer.Rules {
+	return lexer.Rules{
+		"Root": {
+			{Name: "Open", Pattern: `'+`, Action: lexer.Push("Raw")},
+			{Name: "Word", Pattern: `[a-z]+`},
+			{Name: "Space", Pattern: ` +`},
+		},
+		"Raw": {
+			{Name: "Close", Pattern: `\0`, Action: lexer.Pop()},
+			{Name: "Char", Pattern: `(?s:.)`},
 		},
 	}
 }
